@@ -145,6 +145,15 @@ func c06Path(c *mon.Ctx, ck c06Chunk, id, g, p string) (sts [3]refpath.Status) {
 				}
 			}
 		}
+		// the same three questions once more, loosest first: a verdict is about the string, not about what was
+		// asked just before
+		again := [3]error{2: module.CheckFilePath(p), 1: module.CheckImportPath(p), 0: module.CheckPath(p)}
+		for i, k := range c06Kinds {
+			if (again[i] == nil) != (errs[i] == nil) {
+				c.Violation("verdict-depends-on-the-order-of-the-checks", id, map[string]any{"path": mon.QS(p), "kind": k.String(),
+					"first": fmt.Sprint(errs[i]), "after_the_looser_checks": fmt.Sprint(again[i])})
+			}
+		}
 		gm, gi, gf := errs[0] == nil, errs[1] == nil, errs[2] == nil
 		c.Eval(1)
 		if gm && !gi {
